@@ -266,6 +266,7 @@ func (s *mSet) eval(c *mConfirm) *mEval {
 	}
 	ph := c.propHash()
 	any := map[int]bool{}
+	memo := map[string]bool{} // (signer, sig) -> verified; hash and accept are fixed on this path (== ph, true)
 	for i := range c.votes {
 		v := &c.votes[i]
 		ok := v.accept && v.hash == ph
@@ -277,7 +278,13 @@ func (s *mSet) eval(c *mConfirm) *mEval {
 				id, ok = s.byPoint[ptKey(x, y)]
 			}
 			if ok {
-				ok = mVerify(x, y, v.data(), v.sig)
+				mk := string(v.signer) + "|" + string(v.sig)
+				if res, seen := memo[mk]; seen {
+					ok = res
+				} else {
+					ok = mVerify(x, y, v.data(), v.sig)
+					memo[mk] = ok
+				}
 			}
 		}
 		if ok {
